@@ -78,15 +78,19 @@ theorem takeItem_has {q : Q} {o : Option Item} {sid} (h : Has q sid ∨ ∃ it, 
 
 theorem push_has {q : Q} {sid} (id ord dlen : Nat) (h : Has q sid) : Has (push q id ord dlen) sid := by
   have := takeItem_has (q := (makeRoom q).1) (o := (makeRoom q).2) (makeRoom_has h)
-  unfold Has
-  rw [push_live, push_free]
+  have e1 := push_live q id ord dlen
+  have e2 := push_free q id ord dlen
+  generalize push q id ord dlen = P at e1 e2 ⊢
+  generalize takeItem (makeRoom q).1 (makeRoom q).2 = T at this e1 e2
   rcases this with ⟨it, hm, hs⟩ | hs
   · refine ⟨it, ?_, hs⟩
+    rw [e1, e2]
     rcases List.mem_append.mp hm with hm | hm
     · exact List.mem_append_left _ (List.mem_append_left _ hm)
     · exact List.mem_append_right _ hm
-  · exact ⟨_, List.mem_append_left _ (List.mem_append_right _ (List.mem_singleton.mpr rfl)), hs⟩
-
+  · refine ⟨fillItem T.1 T.2 id ord dlen, ?_, hs⟩
+    rw [e1]
+    exact List.mem_append_left _ (List.mem_append_right _ (List.mem_singleton.mpr rfl))
 theorem addPoll_has {q c sid} (h : Has q sid) : Has (addPoll q c) sid := by
   unfold addPoll
   generalize (q.pollCount + 1) % W32 = n
